@@ -76,6 +76,8 @@ func vLexLE(a, b weight) bool {
 //@   modifies anything
 //@   call append#1 assert forallI(a, b, c, a >= 0 && b >= 0 && c >= 0 ==> a < specificity[0] || (a == specificity[0] && (b < specificity[1] || (b == specificity[1] && c < specificity[2]))))
 //@   call append#2 assert specificity[0] == 0 && specificity[1] == 0 && specificity[2] == 0
+// (the clause above is a known finding; what does hold: a style attribute outranks every selector without an id)
+//@   call append#1 assert[outranks-id-less-selectors] specificity[0] >= 1
 
 // A media query list matches when one of its media types is `all` or the device's.
 //@ func evaluateMediaQuery
